@@ -1725,6 +1725,9 @@ def gen_lattice(rng, dialect: str) -> dict:
             items.insert(int(rng.integers(len(items) + 1)), n)
     stmts.append({"k": "line", "name": root, "items": items})
     if dialect == "bmad":
+        if subs and rng.random() < 0.3:
+            # an earlier `use` (e.g. of an included stand-alone cell file): the last one selects the beamline
+            stmts.append({"k": "use", "name": subs[int(rng.integers(len(subs)))]})
         stmts.append({"k": "use", "name": root})
         for text in ["beginning[beta_a] = 10.", "parameter[geometry] = open", "parameter[particle] = electron",
                      "beginning[e_tot] = 10e6"]:
